@@ -7,6 +7,18 @@ AP = "humphrey_auth::AuthProvider::<T>::"
 VALID = r"session::Session::valid$"
 
 
+def is_epoch_now(y):
+    """`UNIX_EPOCH.elapsed()` or `SystemTime::now().duration_since(UNIX_EPOCH)`: the time since the epoch, read from the system clock now."""
+    if not (isinstance(y, tuple) and y and y[0] == "call"):
+        return False
+    if y[1].endswith("SystemTime::elapsed"):
+        return "UNIX_EPOCH" in str(y[2])
+    if y[1].endswith("SystemTime::duration_since") and len(y[2]) == 2:
+        return desc_contains(y[2][0], lambda z: z[0] == "call" and z[1].endswith("SystemTime::now")) and "UNIX_EPOCH" in str(y[2][1]) and \
+            not desc_contains(y[2][1], lambda z: z[0] == "call" and z[1].endswith("SystemTime::now"))
+    return False
+
+
 def closure_calls(prog, d, rx):
     """Does a closure — or a predicate function handed over by name (`.filter(has_live_session)`) — appearing in description d call
     something matching rx?  A named predicate must return `true` only as the result of that call (its other results are `false`)."""
@@ -156,7 +168,7 @@ def run(chk):
                     chk.ob("R2.token", cf.path, "Session.token is the hex encoding of all of those bytes", ok and src_ok, f"token = {panics.short_desc(tok)} ({how})")
                     exp = describe(prog, cf, rv["ops"][rv["fields"].index("expiry")])
                     exp_ok = desc_contains(exp, lambda y: y[0] == "bin" and y[1].startswith("Add")) and desc_contains(exp, lambda y: y[0] == "param" and y[2] == "lifetime") and \
-                        desc_contains(exp, lambda y: y[0] == "call" and y[1].endswith("SystemTime::elapsed"))
+                        desc_contains(exp, is_epoch_now)
                     if not exp_ok:
                         # built with a placeholder and then given its expiry by Session::refresh(lifetime) on every path to the return
                         rf = [blk2 for blk2, t2 in cf.calls_to(r"session::Session::refresh$")
@@ -298,8 +310,8 @@ def run(chk):
     if vb:
         d = describe(prog, vb, 0)
         ei = 1
-        ok = d[0] == "bin" and ((d[1] == "Lt" and desc_contains(d[2], lambda y: y[0] == "call" and y[1].endswith("SystemTime::elapsed")) and desc_contains(d[3], lambda y: y[0] == "field")) or
-                                (d[1] == "Gt" and desc_contains(d[3], lambda y: y[0] == "call" and y[1].endswith("SystemTime::elapsed")) and desc_contains(d[2], lambda y: y[0] == "field")))
+        ok = d[0] == "bin" and ((d[1] == "Lt" and desc_contains(d[2], is_epoch_now) and desc_contains(d[3], lambda y: y[0] == "field") and not desc_contains(d[3], is_epoch_now)) or
+                                (d[1] == "Gt" and desc_contains(d[3], is_epoch_now) and desc_contains(d[2], lambda y: y[0] == "field") and not desc_contains(d[2], is_epoch_now)))
         chk.ob("R7.strict", vb.path, "valid() == (now < expiry), strictly, with now from the system clock", ok,
                f"valid() computes {panics.short_desc(d)}: a session created with lifetime 0 must be born expired")
     db_lookup(chk, prog)
@@ -443,7 +455,7 @@ def whole_password_and_expiry(chk, prog):
             if isinstance(d, tuple) and d[0] == "field" and isinstance(d[1], tuple) and d[1][0] == "bin" and d[1][1] in ("AddWithOverflow", "Add"):
                 l, r = panics._strip(d[1][2]), panics._strip(d[1][3])
                 def is_now(x):
-                    return isinstance(x, tuple) and x[0] == "call" and x[1].endswith("as_secs") and desc_contains(x, lambda y: y[0] == "call" and y[1].endswith("::elapsed")) and \
+                    return isinstance(x, tuple) and x[0] == "call" and x[1].endswith("as_secs") and desc_contains(x, is_epoch_now) and \
                         not desc_contains(x, lambda y: y[0] == "field" or (y[0] == "call" and core.re.search(r"::(max|min|saturating_\w+)$", y[1]) is not None))
                 def is_life(x):
                     return isinstance(x, tuple) and x[0] == "param" and x[2] == "lifetime"
